@@ -17,6 +17,12 @@ ANCHORS = [
     'field.Field.update_field_values',
 ]   # functions whose code the property is anchored in (mutation analysis, evidence)
 
+AUTOMUT_TRIAGE = [
+    (r"Field\.__init__$", r"isinstance\((mesh|nvdim)|nvdim < 1", "argument validation of the constructor is decided by C02.D1/C13.D1 (write-site audit); "
+     "the norm only depends on the order values -> norm -> validity, which is checked"),
+    (r"update_field_values$", r"drop keyword dtype=", "the dtype of stored values is C02.D9's subject"),
+]
+
 
 def run(chk):
     repo = chk.repo
